@@ -165,6 +165,9 @@ def run(ck):
                         "trimmed or rebuilt (as C02.4)")
     from .c02 import fragments_reach_second_pass as _frsp08
     _frsp08(ck, "C08.16")
+    if ck.wants("C08.17"):
+        from .c02 import records_frozen as _rf08
+        _rf08(ck, "C08.17")         # the join reads segments[0] of the very row objects the -D plotters were handed inside the worker
     # argument roles in the multi-pass coordinator (reference / query lists are both List[OpticalMap]: an exchange runs)
     ck.clause("C08.9", "argument roles in the multi-pass coordinator: reference and query arguments are not exchanged")
     from ..rules import role as R
@@ -410,6 +413,23 @@ def _aligned_rest(ck, behaviours, execute):
         if pa.outcome == "return" and pa.value[0] == "new":
             ck.judge("alignedRest" not in dict(pa.value[2]), "C08.3", "AlignmentResultRow.create:alignedRest", where(create, pa.node),
                      "first-pass and joined rows keep the default AlignedRest", found=T.show(dict(pa.value[2]).get("alignedRest", C(None))))
+    # the column is written from the record itself: the leftover file of 'joined' and the main file of 'best' hold records of both passes
+    from ..rules.xmap import extract_writer, row_attrs
+    wt = extract_writer(ck)
+    col = wt.record_values.get("AlignedRest")
+    if col is None:
+        raise AnalysisError(f"{wt.fn.where}: the writer has no AlignedRest column")
+    attrs = row_attrs(col, wt.row_var)
+    if attrs == ["alignedRest"]:
+        ck.ok("C08.3", "XmapReader.writeAlignments:AlignedRest:per-record", where(wt.fn, wt.frame_node), "the column is read from each record")
+    elif not T.contains(col, wt.row_var):
+        ck.violation("C08.3", "XmapReader.writeAlignments:AlignedRest:per-record", where(wt.fn, wt.frame_node),
+                     "the AlignedRest column does not depend on the record it is written for: one value for the whole file - the _1 file "
+                     "of 'joined' holds un-joined first-pass (False) and second-pass (True) records, the main file of 'best' both kinds: "
+                     "every record gets the first record's flag and a single-pass record no longer appears unchanged among the un-joined ones",
+                     found=T.show(col)[:140], required="row.alignedRest of the record itself")
+    else:
+        raise AnalysisError(f"{where(wt.fn, wt.frame_node)}: what the AlignedRest column is written from is not recognised: {T.show(col)[:120]}")
     # provenance of the pass lists in execute
     for m, mb in behaviours.items():
         if m != "all":
